@@ -2,7 +2,7 @@ import Proofs.ExtractShape
 
 /-!
   C14 — the extracted schema does not depend on the order of the rows: permuting the class, relationship,
-  data type and container rows permutes the defined classes and association groups and changes nothing else.
+  data type, container and package-reference rows permutes the defined classes and association groups and changes nothing else.
 -/
 
 namespace Pyx.Extract
@@ -33,6 +33,8 @@ structure RowPerm (d d' : ClassDiagram) : Prop where
   dts : d.dts.Perm d'.dts
   classes : d.classes.Perm d'.classes
   rels : d.rels.Perm d'.rels
+  /-- the EP_PKGREF rows in another order as well -/
+  pkgrefs : d.pkgrefs.Perm d'.pkgrefs
 
 /-- identifiers identify rows: Obj_ID, DT_ID, and Package_ID / Id per kind of container -/
 structure RowWF (d : ClassDiagram) : Prop where
@@ -61,8 +63,9 @@ theorem perm_findContainer (b : Bool) (i : Nat) :
   simp only [Bool.and_eq_true, beq_iff_eq] at px py
   exact wf.contIds x hx y hy (by rw [px.1, py.1]) (by rw [px.2, py.2])
 
-theorem containedFuel_congr {cs cs' : List Container} (h : ∀ b i, findContainer cs' b i = findContainer cs b i)
-    (root f : Nat) (p : Parent) : containedFuel cs' root f p = containedFuel cs root f p := by
+theorem containedFuel_congr {cs cs' : List Container} {rf rf' : List PkgRef}
+    (h : ∀ b i, findContainer cs' b i = findContainer cs b i) (hr : rf.Perm rf')
+    (root f : Nat) (p : Parent) : containedFuel cs' rf' root f p = containedFuel cs rf root f p := by
   induction f generalizing p with
   | zero => rfl
   | succ f ih =>
@@ -72,7 +75,15 @@ theorem containedFuel_congr {cs cs' : List Container} (h : ∀ b i, findContaine
       simp only [containedFuel, h]
       cases findContainer cs false q with
       | none => rfl
-      | some k => exact ih k.parent
+      | some k =>
+        simp only
+        rw [ih k.parent]
+        congr 1
+        rw [Bool.eq_iff_iff]
+        simp only [List.any_eq_true, ih]
+        constructor
+        · rintro ⟨r, hm, hc⟩; exact ⟨r, hr.mem_iff.mpr hm, hc⟩
+        · rintro ⟨r, hm, hc⟩; exact ⟨r, hr.mem_iff.mp hm, hc⟩
     | comp c =>
       simp only [containedFuel, h]
       cases findContainer cs true c with
@@ -81,14 +92,14 @@ theorem containedFuel_congr {cs cs' : List Container} (h : ∀ b i, findContaine
 
 include hp wf in
 theorem perm_inScope (comp : Option Nat) (p : Parent) :
-    inScope d'.containers comp p = inScope d.containers comp p := by
+    inScope d'.containers d'.pkgrefs comp p = inScope d.containers d.pkgrefs comp p := by
   unfold inScope
   cases comp with
   | none => rfl
   | some c =>
     unfold containedIn
     rw [hp.containers.length_eq.symm]
-    exact containedFuel_congr (perm_findContainer hp wf) c _ p
+    exact containedFuel_congr (perm_findContainer hp wf) hp.pkgrefs c _ p
 
 theorem dtTypeFuel_congr {dts dts' : List DataType} (h : ∀ i, findDt dts' i = findDt dts i) (f i : Nat) :
     dtTypeFuel dts' f i = dtTypeFuel dts f i := by
@@ -135,9 +146,9 @@ theorem extract_perm (comp : Option Nat) (drv : Bool) :
   unfold extract
   simp only
   rw [funext (perm_classOf hp wf drv), funext (perm_groupOf hp wf)]
-  have hs : (fun (c : Class) => inScope d'.containers comp c.parent) = fun c => inScope d.containers comp c.parent := by
+  have hs : (fun (c : Class) => inScope d'.containers d'.pkgrefs comp c.parent) = fun c => inScope d.containers d.pkgrefs comp c.parent := by
     funext c; exact perm_inScope hp wf comp c.parent
-  have hr : (fun (r : Rel) => inScope d'.containers comp r.parent) = fun r => inScope d.containers comp r.parent := by
+  have hr : (fun (r : Rel) => inScope d'.containers d'.pkgrefs comp r.parent) = fun r => inScope d.containers d.pkgrefs comp r.parent := by
     funext r; exact perm_inScope hp wf comp r.parent
   rw [hs, hr]
   exact ⟨(hp.classes.filter _).map _, (hp.rels.filter _).filterMap _⟩
